@@ -6,7 +6,7 @@ p = [json.loads(l) for l in open('/verif/properties.jsonl') if json.loads(l)['id
 print(f"""You are testing how well a verification effort can detect regressions in the Python library gityoav/pyg-base (pure-Python quant-research utilities). You get one semantic property of the library and your own scratch git worktree of the repository. Your job: write {n} DIFFERENT, realistic changes to the library's source, each of which BREAKS the property while the package still imports and the existing test suite still passes; and for each a small demonstration program that fails with the change and passes without it.
 
 Your scratch worktree (work ONLY here; it is a git worktree, `git diff` shows your change, `git checkout -- .` undoes it): {wt}
-Python: /venv/bin/python (run things as `cd {wt} && PYTHONPATH={wt}/src /venv/bin/python ...`). There is no network. Put scratch files under /dev/shm, not /tmp. Wrap anything that might hang in `timeout 300`.
+Python: /venv/bin/python (run things as `cd {wt} && PYTHONPATH={wt}/src /venv/bin/python ...`). There is no network. Put scratch files under /dev/shm, not /tmp. NEVER use `git stash` (the stash is shared by all worktrees of the repository and other people work in sibling worktrees): to set a change aside use `git diff > /dev/shm/<yourfile>.diff; git checkout -- .` and `git apply` it back. The prompt's test command with `-x` stops at pre-existing collection errors: run the suite with `-rA --continue-on-collection-errors` and compare the sorted per-test outcome lists before/after. Wrap anything that might hang in `timeout 300`.
 Existing tests: `cd {wt} && PYTHONPATH={wt}/src /venv/bin/python -m pytest -q -p no:cacheprovider --timeout=900 tests -x -q 2>&1 | tail -5`. On the unmodified tree 224 tests pass and 20 fail (the 20 failures are pre-existing and unrelated: they fail identically before and after your change). A change is acceptable only if the set of passing tests is unchanged (compare `-rA`/junit output before and after, or at least the pass/fail counts plus the names of failures).
 
 The property
